@@ -689,7 +689,7 @@ func (w *world) keysetStream(r *hlib.Rng) {
 			o.Count("keyset-class-empty/" + class)
 			continue
 		}
-		n := hlib.N(perClass[class], 10*perClass[class])
+		n := hlib.N(perClass[class], 6*perClass[class])
 		for it := 0; it < n; it++ {
 			o.Case()
 			es, h, err := w.genKeyset(class, r)
@@ -712,18 +712,18 @@ func (w *world) keysetStream(r *hlib.Rng) {
 				continue
 			}
 			if why := ksLossyOf(es); why != "" {
-				// known-unreadable keysets: the property check is still made (once, cleartext binary)
+				// keysets known to be unreadable on the unchanged tree: if the first read fails the
+				// class is reported once and the keyset is left; if it reads, it is an ordinary keyset
 				var buf bytes.Buffer
 				if err := insecurecleartextkeyset.Write(h, keyset.NewBinaryWriter(&buf)); err != nil {
 					w.violate("keyset/write-fails/cleartext/binary", "%s: %v", desc, err)
-				} else if got, err := insecurecleartextkeyset.Read(keyset.NewBinaryReader(&buf)); err != nil {
-					w.violate("LOSSY-KEYSET "+why, "%s: insecurecleartextkeyset.Write succeeds, Read of the written bytes fails: %v", desc, err)
-				} else if d := sameHandle(h, got); d != "" {
-					w.violate("keyset/re-read-differs/cleartext/binary", "%s: %s", desc, d)
-				} else {
-					w.violate("keyset-expected-unreadable-but-read", "%s", desc)
+					continue
 				}
-				continue
+				if _, err := insecurecleartextkeyset.Read(keyset.NewBinaryReader(&buf)); err != nil {
+					w.violate("LOSSY-KEYSET "+why, "%s: insecurecleartextkeyset.Write succeeds, Read of the written bytes fails: %v", desc, err)
+					continue
+				}
+				o.Count("keyset-lossy-class-reads-now")
 			}
 			// which re-read handles get the (expensive) primitive interoperability check
 			interopNow := func(pair string, got *keyset.Handle) {
@@ -779,13 +779,11 @@ func (w *world) keysetStream(r *hlib.Rng) {
 			}
 			// ---- encrypted
 			total := len(keks) * len(ads) * len(formats) * 2
-			nCombos := hlib.N(8, total)
+			nCombos := hlib.N(8, 16)
+			_ = total
 			for j := 0; j < nCombos; j++ {
 				x := combo
 				combo++
-				if hlib.Thorough() {
-					x = j
-				}
 				kk := keks[x%len(keks)]
 				adc := ads[(x/len(keks))%len(ads)]
 				f := formats[(x/(len(keks)*len(ads)))%len(formats)]
